@@ -414,10 +414,36 @@ pub fn is_query_hop_finding(call: &EncCall, exp: &[u8], got: &[u8]) -> bool {
 }
 
 /// Encoder calls made on the context *before* the call under test ("used"
-/// contexts): one that shares argument values with it but differs where a
-/// cache keyed too coarsely would confuse them, and one of another kind.
-pub fn predecessors(call: &EncCall) -> Vec<EncCall> {
+/// contexts).  Variant 1: calls that share argument values with it but differ
+/// where a cache keyed too coarsely would confuse them, a consumer of the
+/// stored EID, and the call itself.  Variant 2: a long call that leaves
+/// non-zero bytes everywhere, then a *refused* call (state that is only
+/// cleaned up on the success path), then nothing else.
+pub fn predecessors(call: &EncCall, variant: u64) -> Vec<EncCall> {
     use EncCall::*;
+    if variant == 2 {
+        return match call {
+            Vendor { fmt, data, num, .. } => vec![
+                Vendor { fmt: if *fmt == 0 { 1 } else { 0 }, data: *data, num: *num, msg: vec![0xEE; 200] },
+                Vendor { fmt: 7, data: *data, num: *num, msg: vec![0xEE; 3] },
+            ],
+            Raw { half, writer, hdr, .. } => vec![
+                Raw { half: *half, writer: *writer, hdr: hdr.clone(), data: vec![0xEE; 200] },
+                Raw { half: *half, writer: *writer, hdr: hdr.clone(), data: vec![0xEE; 300] },
+            ],
+            c if c.is_request() => vec![
+                ReqResolveUuid { uuid: [0xDD; 16], h: 0xDD },
+                ReqRouting { entries: vec![[0xDD; 4]; 7], via_new: false },
+                ReqRouting { entries: vec![[0xDD; 4]; 9], via_new: false },
+                ReqSetEid { op: 1, eid: 0x00 },
+            ],
+            _ => vec![
+                RespUuid { cc: 0, uuid: [0xCC; 16] },
+                RespMsgTypes { cc: 0, types: vec![0xBB; 30] },
+                RespMsgTypes { cc: 0, types: vec![0xBB; 31] },
+            ],
+        };
+    }
     match call {
         Vendor { fmt, data, num, msg } => vec![
             // same number, the other format (a header cache keyed on the number alone)
